@@ -2,6 +2,7 @@
 from __future__ import annotations
 
 import fnmatch
+import asyncio
 import json
 import multiprocessing
 import os
@@ -94,7 +95,7 @@ def _replay_inproc(fn, site, inputs):
             return True, f"check {e.site} failed: {e.detail}"
         except PathAbort:
             return False, "aborted"
-        except Exception as e:
+        except (Exception, asyncio.CancelledError) as e:
             # an exception the harness does not expect is a violation whatever its type (the symbolic and
             # the concrete run may trip over different statements of the same broken code)
             ok = site.startswith("unexpected:")
@@ -373,7 +374,7 @@ def replay(modname, path):
     except PathAbort:
         print("replay: precondition not met")
         return EXIT_OK
-    except Exception as e:
+    except (Exception, asyncio.CancelledError) as e:
         if rp["site"].startswith("unexpected:"):
             print(f"raised: {e!r}")
             print(f"VIOLATION property={mod.PROPERTY} replay={path}")
